@@ -11,6 +11,8 @@ Decided (structural):
  * R-STALE: process_domain looks at the *current* value of its operand; run_constraints repeats
    until the substitution stops growing; labeling starts by re-running the store - so a propagator
    that binds one of its own operands is re-examined with that binding.
+ (round 5, shared) bindings recorded in the extension under the walked representative (unify_rec table, with
+   C01/C22: process_extension_fd looks domains up by extension key); exact set algebra (C18 tables).
 """
 import fdrules
 
@@ -43,3 +45,12 @@ def run(ctx, fb, cfg):
     fdrules.check_sorted_search(ctx, lib, R + "K2.sorted-search")
     fdrules.check_distinctfd(ctx, lib, R + "K6.distinctfd-table")
     fdrules.check_diseqfd(ctx, lib, R + "K6.diseqfd-table")
+    # a value accepted for a domain variable is checked against the domain found under the *extension's* key:
+    # every binding unify_rec adds is recorded in the extension under the walked representative (with C01/C22)
+    import C01
+
+    C01.check_unify_rec(ctx, lib, R + "K3K5.unify-rec")
+    # the domain a variable keeps after narrowing is computed by the set algebra (shared with C18)
+    import C18
+
+    C18.check_algebra_for_propagators(ctx, lib, R)
